@@ -290,6 +290,7 @@ def run(chk):
     _fiberimage_rule(chk, full)
     _asmarity_rule(chk, full)
     _pegsigned_rule(chk, full)
+    _envindex_rule(chk, full)
 
 
 def _envvalid_rule(chk, prog):
@@ -1920,3 +1921,55 @@ def _pegsigned_rule(chk, prog):
                           "`%s` indexes with an operand read as int32 and bounded only from above: an image whose operand word has the "
                           "top bit set reads in front of the array (index -1 returns a forged value, a large one crashes)" % sx.text())
     chk.floor(rule, 1, len(sites))
+
+
+def _envindex_rule(chk, prog):
+    """JOP_CLOSURE builds a function from a definition whose environments[] entries say which of the CREATOR's
+    environments to pass on.  janet_verify cannot know the creator, so this run-time test is the only upper bound on
+    that index: it has to be strict (index < the creator's environment count), or the new closure takes the word behind
+    the creator's function object as an environment pointer."""
+    rule = "C10-ENVINDEX"
+    chk.rule(rule, "run_vm indexes a function's envs[] with a value taken from a definition only on paths that established index < that function's environment count")
+    fn = prog.need_func("run_vm", "vm.c")
+    chk.analysed(fn)
+    sites = [x for x in fn.nodes if x.k == "sub" and x.kids[0].k == "mem" and x.kids[0].field == "envs" and x.kids[0].rec == "JanetFunction"
+             and strip_casts(x.kids[1]).k == "ref"]
+    if not sites:
+        raise AnalysisBroken("run_vm: no envs[] subscript with a variable index")
+    IN, T = flow.condition_facts(fn, cap=24)
+    res = {}
+    for x, S in flow.states_at(fn, IN, T):
+        for sx in sites:
+            if x is sx:
+                v = strip_casts(sx.kids[1]).name
+                def strict(ps):
+                    for (op, l, r, toks, ln, rn) in ps:
+                        if ln is None or rn is None:
+                            continue
+                        a, b = strip_casts(ln), strip_casts(rn)
+                        lenside = lambda e: any(y.k == "mem" and y.field == "environments_length" for y in e.walk()) or \
+                            (e.k == "ref" and any(d.k == "vardecl" and d.name == e.name and d.kids and
+                                                  any(y.k == "mem" and y.field == "environments_length" for y in d.kids[0].walk()) for d in fn.nodes))
+                        if a.k == "ref" and a.name == v and op == "<" and lenside(b):
+                            return True
+                        if b.k == "ref" and b.name == v and op == ">" and lenside(a):
+                            return True
+                    return False
+                res[id(sx)] = res.get(id(sx), True) and bool(S) and all(strict(ps) for ps in S)
+    n = 0
+    for sx in sites:
+        if id(sx) not in res:
+            continue
+        lhs = sx.parent is not None and sx.parent.k == "asg" and sx.parent.kids[0] is sx
+        v = strip_casts(sx.kids[1]).name
+        if lhs and v == "i":
+            continue                # the new function's own slots, filled in a loop over its own count
+        n += 1
+        chk.instance(rule)
+        if res[id(sx)]:
+            chk.ok(rule, "run_vm: `%s` under index < environments_length" % sx.text())
+        else:
+            chk.violation(rule, "vm.c", "run_vm", "envs-index:" + v, sx.loc,
+                          "`%s` is reached without `%s < environments_length` of that function on every path (an off-by-one accepts the "
+                          "index equal to the count): the closure takes the word behind the function object as a JanetFuncEnv pointer" % (sx.text(), v))
+    chk.floor(rule, 1, n)
